@@ -71,4 +71,66 @@ def renderV (h : Heap) (v : Val) : Bytes := (render h (renderFuel h) [] renderBu
 /-- value with its tag -/
 def renderTV (h : Heap) (x : TV) : Bytes := bytesOf x.t.name ++ 61 :: renderV h x.v
 
+
+/-! ### reading a canonical rendering back (engine answers that are values) -/
+def unhexNib' (c : UInt8) : UInt8 :=
+  if 48 ≤ c && c ≤ 57 then c - 48 else if 97 ≤ c && c ≤ 102 then c - 87 else 0
+def isHexDigit (c : UInt8) : Bool := (48 ≤ c && c ≤ 57) || (97 ≤ c && c ≤ 102)
+def isDecDigit (c : UInt8) : Bool := (48 ≤ c && c ≤ 57) || c == 45
+
+def takeHex : Bytes → Bytes × Bytes
+  | a :: b :: r => if isHexDigit a && isHexDigit b then
+      let (x, rest) := takeHex r
+      ((unhexNib' a * 16 + unhexNib' b) :: x, rest)
+    else ([], a :: b :: r)
+  | r => ([], r)
+
+def takeDec (s : Bytes) : Int × Bytes :=
+  let ds := s.takeWhile isDecDigit
+  let rest := s.dropWhile isDecDigit
+  let (neg, ds) := match ds with | 45 :: r => (true, r) | r => (false, r)
+  let n : Nat := ds.foldl (fun (acc : Nat) d => acc * 10 + (d.toNat - 48)) 0
+  ((if neg then -(Int.ofNat n) else Int.ofNat n), rest)
+
+mutual
+/-- parse one rendered value, allocating lists and maps in the heap (no cycles: engines return trees) -/
+def unrender : Nat → Heap → Bytes → Option (Val × Heap × Bytes)
+  | 0, _, _ => none
+  | _, h, 110 :: r => some (.nil, h, r)
+  | _, h, 116 :: r => some (.bool true, h, r)
+  | _, h, 102 :: r => some (.bool false, h, r)
+  | _, h, 105 :: r => let (i, rest) := takeDec r; some (.int i, h, rest)
+  | _, h, 100 :: r => let (i, rest) := takeDec r; some (.float i.toNat.toUInt64, h, rest)
+  | _, h, 115 :: r => let (b, rest) := takeHex r; some (.str b, h, rest)
+  | f+1, h, 91 :: r =>
+    match unrenderList f h r [] with
+    | some (xs, h', rest) => let (h'', a) := h'.alloc (.list xs); some (.ref a, h'', rest)
+    | none => none
+  | f+1, h, 123 :: r =>
+    match unrenderMap f h r [] with
+    | some (kvs, h', rest) => let (h'', a) := h'.alloc (.map kvs); some (.ref a, h'', rest)
+    | none => none
+  | _, _, _ => none
+def unrenderList : Nat → Heap → Bytes → List Val → Option (List Val × Heap × Bytes)
+  | 0, _, _, _ => none
+  | _, h, 93 :: r, acc => some (acc.reverse, h, r)
+  | f+1, h, 44 :: r, acc => unrenderList f h r acc
+  | f+1, h, s, acc =>
+    match unrender f h s with
+    | some (v, h', rest) => unrenderList f h' rest (v :: acc)
+    | none => none
+def unrenderMap : Nat → Heap → Bytes → List (Bytes × Val) → Option (List (Bytes × Val) × Heap × Bytes)
+  | 0, _, _, _ => none
+  | _, h, 125 :: r, acc => some (acc.reverse, h, r)
+  | f+1, h, 44 :: r, acc => unrenderMap f h r acc
+  | f+1, h, s, acc =>
+    let (k, rest) := takeHex s
+    match rest with
+    | 58 :: rest' =>
+      match unrender f h rest' with
+      | some (v, h', rest'') => unrenderMap f h' rest'' (aset k v acc)
+      | none => none
+    | _ => none
+end
+
 end Platypus
